@@ -61,7 +61,7 @@ type Explorer struct {
 	active        int
 	fnInfos       sync.Map
 	feasCache     sync.Map
-	Dumps map[string]string
+	Dumps         map[string]string
 	Paths         []PathResult
 	Failures      []*Failure
 	Reached       map[string]*Witness
